@@ -629,7 +629,12 @@ class Process:
         proc = self.parent()
         while proc is not None:
             parents.append(proc)
-            proc = proc.parent()
+            try:
+                proc = proc.parent()
+            except NoSuchProcess:
+                # An ancestor disappeared while walking up the chain:
+                # same as parent() finding its parent gone.
+                break
         return parents
 
     def is_running(self):
